@@ -5,6 +5,14 @@ V = os.path.dirname(os.path.dirname(os.path.abspath(__file__)))
 
 # id -> (technique, level text, level note, design ref)
 CLAIMED = {
+ "C12": ("Lean 4 refinement proof (simulation relation WF + Abs, one lemma per operation, ~2800 lines) between a heap-faithful model of the tracker and the plain relational Spec + facts + differential correspondence incl. internal maps",
+         "Machine-checked proof that for EVERY sequence of the 16 tracker operations (any names incl. empty and in-use ones, any mode strings and arguments) every return value of the heap-faithful model - ids for *nick/*channel/*ChanPrivs, st.nicks/st.chans, both lookup maps, both pointer-keyed maps, shared privilege cells - equals that of the relational Spec (nicks, channels, membership relation with privileges, me), snapshot maps compared as finite maps; queries are operations, so every query after every history is covered. Tied to the tree by pinned bodies of every tracker/nick/channel method and by random operation walks on the real tracker comparing, after every step, the return value, the full public observation and a dump of the internal two-way maps (pointer sharing included) with the model, with the Spec evaluated on the implementation's own answers.",
+         "Trusted: Lean kernel; extractor; harness + driver; Go map iteration order (the model iterates in list order; the Spec side is proved order-independent, the Go side is exercised with Go's real random order); strconv.Atoi as transcribed. Left unspecified by the property and fixed as the code does it: a privilege change for a non-member and -k consume no argument.",
+         "6 (C12)"),
+ "C09": ("Lean 4 invariant proof over the Send LTS (any number of senders, any interleaving, any queue capacity) + facts + concurrent sender sessions judged by Spec.Send",
+         "Machine-checked proof that in every reachable state of the outgoing-path LTS, for every sender, wire ++ in-flight ++ queue holds exactly the lines it issued, once each, in issue order; hence the wire is per sender an in-order duplicate-free prefix, nothing issued is lost, and while the connection is up the send goroutine always has an enabled step that moves a pending line to the wire. Tied to the tree by the facts that only Raw sends on conn.out and the pinned bodies of Raw, send and write, and by real connections with 1..32 concurrent senders (user goroutines, foreground and background handlers) x 1..2000 lines x fast/slow/bursty server, transcript compared byte for byte and judged by the same Spec predicate.",
+         "Trusted: Lean kernel; extractor; harness + driver; Go channel FIFO semantics and goroutine interleaving as modelled by the LTS (runtime behaviour: partial w.r.t. the Go memory model); bufio write+flush per line.",
+         "6 (C09)"),
  "C18": ("Lean 4 theorems over the client model and an address model (register order, hasPort = explicit-port, dial address, PONG token round trip through the proven parser theorem) + facts + real connections through the in-memory dialer",
          "Machine-checked proofs that REGISTER queues exactly CAP LS? PASS? NICK USER in that order for every configuration, that the address computed for dialling is the configured one with :6667/:6697 added exactly when no port was given (and is idempotent across reconnects), and that every PING token free of CR/LF (empty, with spaces, with colons) is answered by exactly PONG :token which re-parses to the same token. Tied to the tree by handler/connect body facts and by real connections over the configuration cross product (first wire lines, address seen by the dialer, PING tokens incl. 400 bytes interleaved with traffic, PingFreq 0 vs >0).",
          "Trusted: Lean kernel; extractor; harness + driver; net.JoinHostPort as transcribed; the periodic ping goroutine is runtime behaviour: its start condition is pinned by the postConnect fact and observed, not proved. Outside the stated configurations: a bracketed IPv6 literal without port becomes [[::1]]:6667.",
